@@ -164,6 +164,18 @@ def r2_store_routes(ctx, rule="C06.R2"):
                               {"function": f.path})
             else:
                 ctx.ok(rule, key, loc, "produced by %s" % ", ".join(sorted({p.show() for p in producers})))
+    # loop limits: the value copied to the limit register (C) is converted to the counter's type
+    for f in sorted(gens, key=lambda x: x.id):
+        evs = evs_of[f.id]
+        for e in sorted([e for e in evs.values() if e.kind == "push" and e.instr == "CopyAToC"], key=lambda x: x.bb):
+            n += 1
+            producers = _producers_before(f, evs, e.bb)
+            bad = [p for p in producers if not _producer_converts(p)]
+            ctx.decide(bool(producers) and not bad, rule, "%s:%s:loop-limit" % (rule, f.name),
+                       "%s:%s" % (f.file, e.line), "limit produced by the casting emitter",
+                       "the FOR limit copied to register C is produced by %s without conversion to the "
+                       "counter's type: `FOR i%% = 1 TO 2.75` no longer rounds the limit once at entry"
+                       % ", ".join(sorted({p.show() for p in bad})))
     # run-time routes: READ and INPUT convert with the target's qualifier through cast
     for mod, fname in (("read", "run"), ("input", "do_input_one_var")):
         fs = [x for x in prog.fns.values() if x.name == fname and ("built_ins::%s::" % mod) in x.id and x.kind == "fn"]
@@ -178,7 +190,7 @@ def r2_store_routes(ctx, rule="C06.R2"):
                    "%s stores external data without CastVariant::cast (no range check for the "
                    "target's type)" % mod.upper())
     ctx.analysed_units(rule, store_emitters=sorted(prog.fns[s].name for s in store_fns), sites=n)
-    ctx.require(rule, 9)
+    ctx.require(rule, 10)
 
 
 def _producers_before(f, evs, bb):
